@@ -104,6 +104,15 @@ StepObserve ==
   /\ UNCHANGED <<R, T, rej>>
   /\ prevO' = Line.obs
 
+\* a read-only operation of the library (a conversion, a slice, a writer, node_link_data, path / statistics / query
+\* calls) was applied to the live object and its result thrown away: the reference does not move, and the
+\* observation that follows is judged like any other (nothing the library offers as a query may change the graph)
+StepTouch ==
+  /\ Line.op = "touch"
+  /\ fails' = IF HasObs(Line) THEN fails \cup Judge(R, R, T, Line, rej) ELSE fails
+  /\ UNCHANGED <<R, T, rej>>
+  /\ prevO' = (IF HasObs(Line) THEN Line.obs ELSE prevO)
+
 \* C02: a query battery on the current object (line.q = the entries)
 StepBattery ==
   /\ Line.op = "battery"
@@ -159,7 +168,7 @@ StepPaths ==
 Step == /\ brs' = IF l <= Len(Traces[tid]) /\ Line.op = "add_interaction"
                    THEN brs \cup { <<BranchOf(R, Line), Line.res>> } ELSE brs
         /\ l <= Len(Traces[tid])
-        /\ (StepNew \/ StepAdd \/ StepNode \/ StepSetAttr \/ StepClear \/ StepObserve \/ StepBattery \/ StepDerive \/ StepParse \/ StepPaths \/ StepStats \/ StepGuard \/ StepConf)
+        /\ (StepNew \/ StepAdd \/ StepNode \/ StepSetAttr \/ StepClear \/ StepObserve \/ StepTouch \/ StepBattery \/ StepDerive \/ StepParse \/ StepPaths \/ StepStats \/ StepGuard \/ StepConf)
         /\ l' = l + 1
         /\ UNCHANGED tid
 
